@@ -13,7 +13,7 @@ func init() {
 		genMix(p, r, "C04")
 	}
 	generators["C05"] = func(p *Plan, r *RNG) { genMix(p, r, "C05") }
-	generators["C08"] = func(p *Plan, r *RNG) { genMix(p, r, "C08") }
+	generators["C08"] = func(p *Plan, r *RNG) { withRace(p, r, 5, func() { genMix(p, r, "C08") }) }
 	generators["C19"] = func(p *Plan, r *RNG) { withRace(p, r, 6, func() { genMix(p, r, "C19") }) }
 }
 
